@@ -1,5 +1,6 @@
 """C14 — non-maximum suppression (order / strictness / denominator / id discipline; subset by lifetime)."""
 import votinglib as V
+from mir import norm
 from lib import (ExprBuilder, all_closures, as_cmp, closure_args_of_call, eval_bool_paths, orient, path_conditions,
                  result_assignments, upvar_expr)
 
@@ -49,8 +50,46 @@ def run(ctx):
         ctx.check(d == 'desc' and f == 'rank', R, b, 'descending-rank', '%s on %s' % (d, f),
                   'candidates are ordered %s by `%s` (expected decreasing rank: the top-ranked box must be '
                   'processed first and can never be suppressed)' % (d, f), c.ln)
-    cn = ctx.anchor(R, 'utils::nms::Candidate::new')
+    cn = ctx.F.one('utils::nms::Candidate::new')
+    if cn is None:
+        # the constructor was inlined at its call site: the candidate is built in nms() (or a closure of it)
+        inl = False
+        for hb in [b] + all_closures(F, b):
+            ehb = ExprBuilder(hb)
+            for i_ in sorted(hb.live_blocks()):
+                for si_, s_ in enumerate(hb.blocks[i_]['st']):
+                    rv_ = s_.get('rv') or {}
+                    if s_['k'] == 'assign' and rv_.get('k') == 'agg' and rv_.get('ak') == 'adt' and \
+                            norm(rv_.get('adt', '')) == 'utils::nms::Candidate':
+                        e = ehb._rvalue(rv_, (), 0, (i_, si_))
+                        m = dict(zip(e.extra['fields'], e.args))
+                        rk = m.get('rank')
+                        inl = True
+                        n += 1
+                        ok = False
+                        if rk is not None and m.get('bbox') is not None:
+                            bx = m['bbox'].strip()
+                            pls = rk.places()
+                            height_pl = [p_ for p_ in pls if p_.fields[-1:] == ('height',)]
+                            score_pl = [p_ for p_ in pls if p_ not in height_pl]
+                            arith = [x for x in rk.walk() if x.kind in ('bin', 'un')]
+                            same_box = bool(height_pl) and bx.kind == 'place' and all(
+                                p_.root == bx.root and tuple(p_.fields[:len(bx.fields)]) == tuple(bx.fields)
+                                for p_ in height_pl)
+                            ok = bool(score_pl) and same_box and not arith and \
+                                len({(p_.root, tuple(p_.fields)) for p_ in score_pl}) == 1
+                        ctx.check(ok, R, hb, 'rank=score-or-height', repr(rk),
+                                  'rank is %r (expected score.unwrap_or(bbox.height) of the same detection)' % rk, s_['ln'])
+                        n += 1
+                        okb = m.get('bbox') is not None and m.get('index') is not None and \
+                            m['bbox'].strip().kind == 'place' and not [x for x in m['index'].walk() if x.kind == 'bin']
+                        ctx.check(okb, R, hb, 'candidate-keeps-its-box-and-id', '',
+                                  'the candidate does not keep (bbox, index) of its detection', s_['ln'])
+        if not inl:
+            ctx.fail(R, b, 'rank=score-or-height', 'ANCHOR-MISSING: no Candidate is built (neither Candidate::new nor '
+                     'a struct literal in nms)')
     if cn is not None:
+        ctx.read(cn)
         e = ExprBuilder(cn).place(0, ())
         m = dict(zip(e.extra['fields'], e.args)) if e.kind == 'agg' else {}
         rk = m.get('rank')
@@ -197,6 +236,10 @@ def run(ctx):
                 if st_.kind == 'bin' and st_.name == 'Add' and st_.args[1].const_value() == '1' and \
                         st_.args[0].has_call('next'):
                     inner_ranges.append(c)
+    # slice-pattern form: the inner loop runs over the tail `[1..]` of the slice whose head `[0]` is the outer box
+    tail_loops = [c for c in b.find_calls('std::iter::Iterator::next') if '[1..-0]' in repr(eb.arg(c, 0)) and
+                  b.in_loop(c.bb)]
+    inner_ranges = inner_ranges + tail_loops
     n += 1
     oks = bool(inner_ranges)
     detail = ''
@@ -279,6 +322,15 @@ def elem_role(e):
     `for (i, cb) in v.iter().enumerate() { for ob in &v[i + 1..] {..} }` and `for i in 0..n { for j in i + 1..n {..} }`"""
     if e.has_call('index') and 'RangeFrom' in repr(e):
         return 'inner'
+    # slice-pattern form: `while let [cb, lower @ ..] = rest { rest = lower; for ob in lower {..} }`
+    def has_proj(x, name):
+        return any(name in tuple(str(q) for q in (y.fields if y.kind == 'place' else y.proj))
+                   for y in x.walk() if y.kind in ('place', 'call', 'agg', 'phi') or True)
+    nexts = [y for y in e.walk() if y.kind == 'call' and y.name.rsplit('::', 1)[-1] == 'next' and y.args]
+    if any(has_proj(y.args[0], '[1..-0]') for y in nexts):
+        return 'inner'
+    if not nexts and has_proj(e, '[0]') and 'as_slice' in repr(e):
+        return 'outer'
     ranges = [x for x in e.walk() if x.kind == 'agg' and x.name.endswith('Range::Range') and len(x.args) == 2]
     for r in ranges:
         st_ = r.args[0]
